@@ -399,7 +399,7 @@ Ours(n, cid, m, consumed) ==
     ELSE IF m.cands.k # key THEN
          \* candidates_enc does not decrypt: the hop has been added, the circuit is given up (no destroy)
          LET r == RemoveCircuitStep(n, cid, FALSE) IN
-         /\ circ' = [circ EXCEPT ![n] = Put(r.circ, cid, [c1 EXCEPT !.closing = TRUE])]
+         /\ circ' = [circ EXCEPT ![n] = Beat(Put(r.circ, cid, [c1 EXCEPT !.closing = TRUE]), n, cid)]
          /\ retryC' = [retryC EXCEPT ![n] = r.retry] /\ pend' = r.pend
          /\ Emit(consumed, <<>>) /\ UNCHANGED ctr
     ELSE
